@@ -1355,7 +1355,7 @@ def cases_of(shard, quick, seed):
         slens = [0, 1, 63, 64, 65, 129, 513]
         if not quick:
             seeks += (2, 31, 32, 62, 66, 191, 192, 193, 64 * 15 + 63, 64 * 16, 64 * 65535 + 63, 64 * 65536,
-                      64 * (2 ** 24 - 1) + 63, 64 * 2 ** 24, 64 * (2 ** 31 - 1) + 63, 64 * 2 ** 31 + 33, 64 * (2 ** 32 - 5))
+                      64 * (2 ** 24 - 1) + 63, 64 * 2 ** 24, 64 * (2 ** 31 - 1) + 63, 64 * 2 ** 31 + 33, 64 * (2 ** 32 - 20))
             slens = [0, 1, 2, 63, 64, 65, 127, 128, 129, 255, 256, 257, 513]
         for pos in seeks:
             yield ("stream", {"part": "stream", "c": "ChaCha20", "klen": 32, "vc": vc, "seed": seed, "nl": nl,
